@@ -1,6 +1,8 @@
 """Spec functions for the controller: matching counts and trace counts (C06, C10, C11, C16)."""
 from pyvc.contracts import specfn, lemma
 from pyvc.ghost import check
+from core.wl.message import Message
+from core import wl
 
 MATCHER = 'Obj("core.matcher.Matcher")'
 MSG = 'Obj("core.wl.message.Message")'
@@ -40,3 +42,17 @@ def cnt_monotone(m, msgs, a, b):
 def msgs_ts_gap(a, b):
     """more than one second between two messages"""
     return b.timestamp - a.timestamp > 1.0
+
+
+@lemma(requires=[], ensures=['True'], props=['C16'],
+       types={'t1': 'float', 't2': 'float', 'shift': 'float'},
+       gen=lambda rnd: (rnd.choice([0.0, 1.5, 100.25]), rnd.choice([0.0, 2.5, 101.0]), rnd.choice([0.0, 1000.0, -3.5])))
+def lemma_time_shift(t1, t2, shift):
+    """adding a constant to every log time changes no displayed time: two messages, first fixes the base (reals)"""
+    Message.base_time = None
+    a = Message(t1, wl.UnresolvedObject(1, None), False, 'a', ())
+    b = Message(t2, wl.UnresolvedObject(1, None), False, 'b', ())
+    Message.base_time = None
+    c = Message(t1 + shift, wl.UnresolvedObject(1, None), False, 'a', ())
+    d = Message(t2 + shift, wl.UnresolvedObject(1, None), False, 'b', ())
+    check('a.timestamp == c.timestamp and b.timestamp == d.timestamp', 'shift_invariant')
